@@ -12,6 +12,7 @@ import extract_linemap
 import gen_linemap
 import kani_run
 import side_unit
+import session_probe
 from common import VERIF, REPO, scratch, Undecided, write_evidence, write_replay, load_known_findings, finish
 from rustcut import AnchorLost
 
@@ -94,13 +95,18 @@ def main(prop, tier):
     except (AnchorLost, OSError) as e:
         return undecided(prop, tier, t0, 'extraction anchor lost: %s' % e)
     names = ['verif_kani::' + h['name'] for h in hs]
+    # (the Kani "session variant" of the crate - extract_linemap.extract_session / gen_linemap.generate_session - is not run:
+    # no scenario finished within 20 minutes, DESIGN.md 0.11; C15 uses the native session probe instead)
+    sess_dir, sess_hs, sess_ex = None, [], None
     cans = CANARIES.get(prop, [])
     if tier == 'quick':
         cans = cans[:1]
     jobs = int(os.environ.get('VERIF_JOBS', '15'))
     ded, ded_can = None, []
+    sess_results = []
+    probe = None
     try:
-        with cf.ThreadPoolExecutor(max_workers=3) as pool:
+        with cf.ThreadPoolExecutor(max_workers=4) as pool:
             fc = [pool.submit(run_canary, prop, c, i, tier) for i, c in enumerate(cans)]
             du = DED_UNIT.get(prop)
             if du:
@@ -108,14 +114,19 @@ def main(prop, tier):
                 # harnesses below check the line-map contract it assumes, and the same functions once more, on enumerated documents
                 fd = pool.submit(side_unit.run, du)
                 fdc = [pool.submit(side_unit.canary, du, c, i) for i, c in enumerate(side_unit.UNITS[du]['canaries'][:1 if tier == 'quick' else None])]
+            fprobe = pool.submit(session_probe.run_probe) if prop == 'C15' else None
             results = kani_run.run_many(d, names, FLAGS, 2400, jobs=jobs)
+            probe = fprobe.result() if fprobe else None
             can = [f.result() for f in fc]
             if du:
                 ded = fd.result()
                 ded_can = [f.result() for f in fdc]
     except Undecided as e:
         return undecided(prop, tier, t0, str(e))
-    byname = {h['name']: h for h in hs}
+    byname = {h['name']: h for h in hs + sess_hs}
+    sess_names = set('verif_kani::' + h['name'] for h in sess_hs)
+    results = results + sess_results
+    hs = hs + sess_hs
     und = [r for r in results if r['status'] in ('ERROR', 'TIMEOUT')]
     kf = load_known_findings()
     violations, known_lines, guard = [], [], []
@@ -135,7 +146,7 @@ def main(prop, tier):
             known_lines.append('%s (%d documents, e.g. %r)' % (known.get('what', oblig), len(docs), docs[0]))
             continue
         r, h, fcheck = lst[0]
-        tests = kani_run.playback_failure(d, r['harness'], FLAGS)
+        tests = kani_run.playback_failure(sess_dir if r['harness'] in sess_names else d, r['harness'], FLAGS)
         t = next((t for t in tests if t['description'] == fcheck['description'] and t['native'].startswith('FAILED')), None)
         wit = None
         if t:
@@ -145,6 +156,19 @@ def main(prop, tier):
         path = write_replay(prop, oblig, fcheck['location'], 'kani 0.68.0 / cbmc 6.11', json.dumps(fcheck), wit,
                             './check %s --replay <this file>' % prop)
         violations.append((path, wit is not None))
+    if probe and probe['status'] == 'failed':
+        # bounded native probe of the real Server::on_did_change: every failing scenario is a concrete history on the real code
+        sy = sorted(probe['symptoms'].items())
+        oblig = 'session-probe :: Server::on_did_change :: %s' % sy[0][1].split(' | ')[-1]
+        known = next((k for k in kf.get('findings', []) if k.get('property') == prop and k.get('obligation') == oblig), None)
+        if known:
+            known_lines.append('%s (%d scenarios, e.g. %s)' % (known.get('what', oblig), len(sy), sy[0][0]))
+        else:
+            wit = {'kind': 'session-probe', 'scenario': sy[0][0], 'observed': sy[0][1], 'all_failing_scenarios': dict(sy),
+                   'source': 'tools/session_probe/verif_session.rs'}
+            path = write_replay(prop, oblig, 'crates/glas/src/server.rs (Server::on_did_change)', 'native probe on a scratch copy of the real crate (bounded stand-in)',
+                                json.dumps(probe['symptoms'], indent=1), wit, './check %s --replay <this file>' % prop)
+            violations.append((path, True))
     if ded and ded['status'] == 'failed':
         # failed obligations of the deductive part; a concrete failing input, when there is one, comes from the Kani harnesses above
         seen_fn = set()
@@ -182,10 +206,13 @@ def main(prop, tier):
            'exhaustive': False,
            'bound': 'every document of <= %d characters over the alphabet {a, LF, U+00DF (2 bytes), U+211D (3 bytes), U+1F4A3 (4 bytes, surrogate pair)}%s; per document, offsets / (line, column) pairs / ranges / tags symbolic over their whole domain; unwinding assertions on' % (L, ' plus CR' if prop == 'C13' else ''),
            'harnesses': len(hs), 'successful': len(ok), 'failed': len(failed), 'undecided': len(und),
-           'functions_under_contract': ex['functions'], 'standins': ex['standins'], 'extraction_dropped': ex['dropped'],
+           'functions_under_contract': sorted(set(ex['functions'] + (sess_ex['functions'] if sess_ex else []))), 'standins': ex['standins'] + ([sess_ex['standins'][-1]] if sess_ex else []),
+           'extraction_dropped': ex['dropped'] + ([x for x in sess_ex['dropped'] if x not in ex['dropped']] if sess_ex else []),
            'back_end': 'Kani 0.68.0 / CBMC 6.11 (bounded stand-in: Verus rejects every one of these function texts, DESIGN.md 3.4)',
            'cbmc_s_total': round(sum(r.get('cbmc_s', 0) or 0 for r in results), 1),
            'canaries': can + ded_can, 'checker_cmd': results[0]['cmd'] if results else ''}
+    if probe:
+        cov['session_probe'] = probe
     if ded:
         cov['deductive_part'] = ded
         if ded['status'] == 'verified':
@@ -194,8 +221,11 @@ def main(prop, tier):
         'oracle: tools/lsp_reference.py, a naive LSP client written from the specification (shares no code with glas)',
         'server.rs::on_did_change (tokio / async-lsp) is not buildable under Kani: the per-change loop is covered only by the induction argument of DESIGN.md 3.4 (K6)',
         'Slab, Arc, text-size, anyhow are the real crates, executed symbolically; arithmetic is CBMC machine arithmetic with overflow checks (debug-build semantics)',
-        'alloc::fmt::format is stubbed in harnesses that construct anyhow errors (message text is irrelevant to the contracts)']
+        'alloc::fmt::format is stubbed in harnesses that construct anyhow errors (message text is irrelevant to the contracts)'] + (
+        ['native session probe (bounded, real crate glas built with cargo test --offline): 8 whole-notification scenarios through the real Server::on_did_open / on_did_change (several changes, an earlier one rejected, mid-surrogate, multi-byte); not a proof - server.rs is outside both verifiers'] if probe else [])
     write_evidence(prop, tier, 'model_checking', cov, assumptions, time.time() - t0, len(violations), {'known_findings_matched': known_lines})
+    if probe and probe['status'] == 'undecided' and not violations:
+        finish(prop, [], known_lines, 'native session probe not decided: %s' % probe.get('why', '')[:600])
     if und and not violations:
         finish(prop, [], known_lines, '%d harness(es) not decided (timeout / CBMC error), e.g. %s: %s' % (len(und), und[0]['harness'], und[0]['raw_tail'][-400:]))
     if guard and not violations:
@@ -239,16 +269,25 @@ def undecided(prop, tier, t0, msg):
 def replay(prop, path):
     r = json.load(open(path))
     w = r.get('witness')
+    if w and w.get('kind') == 'session-probe':
+        pr = session_probe.run_probe()
+        st = pr.get('scenarios', {}).get(w['scenario'])
+        print('replay on the working tree: scenario %s: %s %s' % (w['scenario'], st, pr.get('symptoms', {}).get(w['scenario'], '')))
+        return 1 if st == 'FAILED' else 0
     if not w or not w.get('test_source'):
         print('replay: no concrete witness; failed obligation: %s\n%s' % (r.get('obligation'), r.get('verifier_output')))
         return 1
     d = os.path.join(scratch(), 'replay_kani')
     # regenerate the harness for the witness' document in both tiers' generators
-    for tier in ('quick', 'thorough'):
-        text, hs = gen_linemap.generate(prop, tier)
-        if any(h['name'] == w['harness'] and h['doc'] == w['document'] for h in hs):
-            break
-    extract_linemap.write_crate(REPO, d, text)
+    session = w['harness'].startswith('c15_session')
+    if session:
+        text, hs = gen_linemap.generate_session('quick')
+    else:
+        for tier in ('quick', 'thorough'):
+            text, hs = gen_linemap.generate(prop, tier)
+            if any(h['name'] == w['harness'] and h['doc'] == w['document'] for h in hs):
+                break
+    extract_linemap.write_crate(REPO, d, text, session=session)
     tests = [{'test_name': re.search(r'fn (kani_concrete_playback_\w+)', w['test_source']).group(1), 'test_source': w['test_source'], 'native': 'not-run'}]
     kani_run.run_playback_tests(d, tests)
     print('replay on the working tree (document %r, %s): %s' % (w['document'], w.get('decoded'), tests[0]['native']))
